@@ -321,6 +321,25 @@ pub fn run(cfg: &Cfg) -> i32 {
         let env = env_for_paths(&paths, 1);
         judge(&mut out, &format!("raw-{i}"), &prog, &env, None, &HashMap::new(), "raw_clvm");
     }
+    // C. wrong number of arguments for the operators the stepper executes itself (a i c f r) and for l, =, x:
+    //    the debugger must end in a failure entry exactly when clvm fails
+    for i in 0..cfg.pick(150, 3000) {
+        let mut paths = vec![];
+        let n = rng.below(5);
+        let args: Vec<V> = (0..n).map(|_| rand_expr(&mut rng, 2, &ops, 0, &mut paths)).collect();
+        let head = *rng.pick(&[2u8, 3, 4, 5, 6, 7, 8, 9]);
+        let bad = V::cons(V::A(vec![head]), V::list(&args));
+        let prog = match rng.below(4) {
+            0 | 1 => bad,
+            2 => V::list(&[V::A(vec![4]), quote(V::int(9)), bad]),
+            _ => {
+                paths.push(vec![5]);
+                V::list(&[V::A(vec![2]), V::list(&[V::A(vec![3]), V::A(vec![5]), quote(bad), quote(quote(V::int(1)))]), V::A(vec![1])])
+            }
+        };
+        let env = env_for_paths(&paths, 1);
+        judge(&mut out, &format!("arity-{i}"), &prog, &env, None, &HashMap::new(), "raw_wrong_arity");
+    }
     // pinned witness of the listed finding
     if cfg.shard == 0 {
         let w = V::from_ser(&hex::decode("ff04ffff05ffff04ff07ffff02ffff01ff0182826effff04ff03ff8080808080ffff03ff80ff17ffff0affff01820080ffff0180808080").unwrap()).unwrap();
